@@ -318,6 +318,16 @@ func (e *ListExpr) Check(ctx *CheckCtx) error {
 }
 
 func (e *FieldAccessExpr) Check(ctx *CheckCtx) error {
+	// The left expression is part of the statement too: resolve a field name
+	// standing there and check it (which resolves the field names inside it)
+	if lexp, ok := e.Left.(*NameExpr); ok {
+		if nexpr, have := ctx.GetNamedExpr(lexp.Data); have {
+			e.Left = &FieldReferenceExpr{
+				Name:      lexp,
+				FieldExpr: nexpr,
+			}
+		}
+	}
 	if err := e.Left.Check(ctx); err != nil {
 		return err
 	}
